@@ -1,5 +1,5 @@
 """Property -> rule composition.  Each function decides the statically decidable clauses of one property."""
-from .rules import kdefects, numeric, seed, typestate, ownership, clifford, circuit, stabilizer, adjoint, manifold, gellmann, twins, backend, masks, axes, pauli
+from .rules import kdefects, numeric, seed, typestate, ownership, clifford, circuit, stabilizer, adjoint, manifold, gellmann, twins, backend, masks, axes, pauli, convexroof, boundary
 
 M = 'numqi.'
 DECISION_C05 = ['numqi.entangle.ppt.is_ppt', 'numqi.entangle.ppt.is_generalized_ppt',
@@ -20,8 +20,37 @@ def c05(proj, rep, tier):
     rep.floor('T2 tolerance-direction sites (C05)', n, 6)
     n = kdefects.k1(proj, rep, ENTANGLE)
     rep.floor('K1 int()/float() casts of names in entangle criteria', n, 8)
+    n = boundary.p1(proj, rep)
+    rep.floor('P1 partial-transpose sites', n, 3)
+    n = numeric.f2(proj, rep, ['numqi.entangle.eof', 'numqi.entangle.measure'])
+    rep.floor('F2 sqrt(1-C^2) sites in the closed forms', n, 2)
     n = numeric.f1(proj, rep, ['numqi.entangle.eof', 'numqi.entangle.measure', 'numqi.entangle._misc', 'numqi.utils'])
     rep.floor('F1 log sites in entangle measures + utils', n, 10)
+
+
+def c06(proj, rep, tier):
+    n = boundary.p1(proj, rep)
+    rep.floor('P1 partial-transpose sites', n, 3)
+    n = boundary.i1(proj, rep)
+    rep.floor('I1 boundary-interval obligations', n, 10)
+    n = boundary.c1(proj, rep)
+    rep.floor('C1 SDP / LP builders', n, 4)
+    n = numeric.t2(proj, rep, ['numqi.entangle.ppt.get_generalized_ppt_boundary'])
+    rep.assume('threshold exactness, interpolation distance, every beta inequality of the hierarchy and "inner-model states pass '
+               'outer tests" are eigenvalue / solver quantities: not decided. Decided: the structural necessary conditions - a genuine '
+               'partial transpose for symbolic dims, monotone intersection of intervals, complete constraint sets that only grow.')
+
+
+def c13(proj, rep, tier):
+    n = convexroof.v1(proj, rep)
+    rep.floor('V1 convex-roof model obligations', n, 18)
+    n = numeric.f1(proj, rep, ['numqi.entangle.eof', 'numqi.entangle.measure'])
+    rep.floor('F1 log sites in eof / measure', n, 2)
+    n = numeric.f2(proj, rep, ['numqi.entangle.eof', 'numqi.entangle.measure'])
+    rep.floor('F2 sqrt(1-C^2) sites in the closed forms', n, 2)
+    rep.assume('ranges, local-unitary invariance, monotone relations between the measures, "non-zero iff NPT" and loss >= closed form '
+               'numerically are value-level: not decided. The GME model builds its contraction lists from len(dim_list) (not literal): '
+               'only clauses (a),(b) are decided for it.')
 
 
 def c07(proj, rep, tier):
@@ -252,7 +281,7 @@ def c20(proj, rep, tier):
 
 
 def dev(proj, rep, tier):
-    print(pauli.e1(proj, rep))
+    print(boundary.p1(proj, rep), boundary.i1(proj, rep), boundary.c1(proj, rep))
 
 
-PROPS = {'C01': c01, 'C02': c02, 'C08': c08, 'C12': c12, 'C15': c15, 'C16': c16, 'C03': c03, 'C04': c04, 'C05': c05, 'C07': c07, 'C19': c19, 'C10': c10, 'C11': c11, 'C18': c18, 'C20': c20, 'DEV': dev}
+PROPS = {'C01': c01, 'C02': c02, 'C06': c06, 'C08': c08, 'C13': c13, 'C12': c12, 'C15': c15, 'C16': c16, 'C03': c03, 'C04': c04, 'C05': c05, 'C07': c07, 'C19': c19, 'C10': c10, 'C11': c11, 'C18': c18, 'C20': c20, 'DEV': dev}
